@@ -50,7 +50,8 @@ def ticks(x):
 
 def gen_shape(rng, auto):
     k = rng.choice([1, 2, 2, 3, 3, 4, 5])
-    names = ["s%d" % i for i in range(k)]
+    # a state may carry a leading underscore (only names of StateMachine attributes are forbidden)
+    names = [("_s%d" if rng.random() < 0.15 else "s%d") % i for i in range(k)]
     has_default = rng.random() < 0.4
     states = list(names)
     default = "none"
